@@ -25,11 +25,22 @@ pub fn pick_midp_secs(rng: &mut Rng) -> u64 {
     }
 }
 
+/// The public key as an operator may write it after -k: hexadecimal in lower, upper or mixed case
+/// (the client's hex decoder is case-permissive), or standard base64.
+pub fn key_text(rng: &mut Rng, k: &[u8]) -> String {
+    match rng.below(6) {
+        0 | 1 => r::hex_lower(k),
+        2 => r::hex_lower(k).to_uppercase(),
+        3 => r::hex_lower(k).chars().map(|c| if rng.chance(1, 2) { c.to_ascii_uppercase() } else { c }).collect(),
+        _ => r::base64(k, false, true),
+    }
+}
+
 pub fn client_args(rng: &mut Rng, port: u16, proto: P, key: Option<&[u8]>, n: u32, timeout: u32) -> Vec<String> {
     let mut a = vec!["127.0.0.1".to_string(), port.to_string(), "-p".into(), if proto == P::Ietf { "13".into() } else { "0".into() }, "-n".into(), n.to_string(), "-t".into(), timeout.to_string()];
     if let Some(k) = key {
         a.push("-k".into());
-        a.push(if rng.chance(1, 2) { r::hex_lower(k) } else { r::base64(k, false, true) });
+        a.push(key_text(rng, k));
     }
     if rng.chance(1, 2) {
         a.push("-z".into());
@@ -45,16 +56,16 @@ pub fn client_args(rng: &mut Rng, port: u16, proto: P, key: Option<&[u8]>, n: u3
     a
 }
 
-/// every (path depth 0..=6, index below 2^depth) x protocol x key option: 127 x 2 x 3
-pub const POSITIONS: u64 = 127 * 2 * 3;
+/// every (path depth 0..=6, index below 2^depth) x protocol x key option: 127 x 2 x 4
+pub const POSITIONS: u64 = 127 * 2 * 4;
 
 fn gen_position(seed: u64, k: u64) -> Plan {
     let mut rng = Rng::derive(seed, "c03-pos");
     let mut plan = Plan::new("C03", "c03.every_batch_position", seed);
     world_knobs(&mut rng, &mut plan, false);
-    let key_opt = k % 3;
-    let proto = if (k / 3) % 2 == 0 { P::Classic } else { P::Ietf };
-    let mut pos = k / 6; // 0..127
+    let key_opt = k % 4;
+    let proto = if (k / 4) % 2 == 0 { P::Classic } else { P::Ietf };
+    let mut pos = k / 8; // 0..127
     let mut depth = 0u32;
     while pos >= (1u64 << depth) {
         pos -= 1u64 << depth;
@@ -75,7 +86,11 @@ fn gen_position(seed: u64, k: u64) -> Plan {
     let mut args = client_args(&mut rng, port, proto, None, 1, 3);
     if key_opt > 0 {
         args.push("-k".into());
-        args.push(if key_opt == 1 { r::hex_lower(&pk) } else { r::base64(&pk, false, true) });
+        args.push(match key_opt {
+            1 => r::hex_lower(&pk),
+            2 => r::base64(&pk, false, true),
+            _ => r::hex_lower(&pk).to_uppercase(),
+        });
     }
     plan.step(1000, Action::RunClient { argv: args });
     plan.world.horizon_ms = 4_000;
@@ -251,7 +266,7 @@ pub fn property() -> Property {
         gen,
         check,
         finalize: no_finalize,
-        rule: "every batch position (path depth 0..=6 x every index below 2^depth = 127 positions) x protocol x key option none/hex/base64 = 762 cases is enumerated completely against the reference responder; the remaining evaluations sample: one evaluation = one simulated execution of the real client main() (seeded -p 0|13, -k none|hex|base64, -n 1..8, -z or explicit -f, -j/-v) against (a) an honest reference responder that signs a chosen midpoint (epoch..year 9999) and places each request at a chosen index 0..63 of a batch of depth 0..6, or (b) 1-4 real Server workers under a swept wall clock with up to 64 competing requests so that batches form; non-trivial = the client received at least one response; distinct = distinct schedule fingerprints",
+        rule: "every batch position (path depth 0..=6 x every index below 2^depth = 127 positions) x protocol x key option none / lower-case hex / base64 / upper-case hex = 1016 cases is enumerated completely against the reference responder; the remaining evaluations sample: one evaluation = one simulated execution of the real client main() (seeded -p 0|13, -k none|hex in lower, upper or mixed case|base64, -n 1..8, -z or explicit -f, -j/-v) against (a) an honest reference responder that signs a chosen midpoint (epoch..year 9999) and places each request at a chosen index 0..63 of a batch of depth 0..6, or (b) 1-4 real Server workers under a swept wall clock with up to 64 competing requests so that batches form; non-trivial = the client received at least one response; distinct = distinct schedule fingerprints",
         assumptions: &["TZ is pinned to UTC; runs without -z use a format without %Z", "independent civil-time formatter (refimpl::time) is the output oracle"],
         real: REAL_C,
         stub: STUB,
